@@ -299,6 +299,7 @@ class C19e(Obligation):
     id = 'C19.e'
     title = 'search results: a hit is dropped only if the very same token (or module file) was already reported'
     pattern = 'P3 (the stream of raw hits is symbolic: which token, which file, which position)'
+    sym_containers = True
     assumptions = (
         'a stream of k<=3 raw hits; each refers to one of two name tokens (in files with the SAME base name and possibly '
         'the SAME line/column) or is a module hit for one of two paths; identity of tokens and paths is what matters',
